@@ -205,9 +205,9 @@ def run(ctx):
             return ('cap', True)
         if t == 'cap is None':
             return ('cap', False)
-        if re.match(r'^len\(\w+\) < cap$', t):
-            return ('full', False)
-        if re.match(r'^cap < len\(\w+\)$', t) or re.match(r'^cap == len\(\w+\)$', t) or re.match(r'^len\(\w+\) == cap$', t):
+        if re.match(r'^(?:len\(\w+\)|\d+) < cap$', t):
+            return ('full', False)      # fewer collected than the cap (the number collected is known on the path)
+        if re.match(r'^cap < (?:len\(\w+\)|\d+)$', t) or re.match(r'^cap == (?:len\(\w+\)|\d+)$', t) or re.match(r'^(?:len\(\w+\)|\d+) == cap$', t):
             return None
         if re.match(r'^matcher\.matches\(<elem0 of ', t):
             return ('match0', True)
@@ -221,7 +221,7 @@ def run(ctx):
               'the scan stops right after the append that fills the cap; a cap of 0 or None never stops it',
               'scan stop reached=%s in scenario %s' % ((probs[0][2], probs[0][1]) if probs else ('', '')))
     capatoms = {a.text for p in gpaths for a, v in p.decisions if 'cap' in a.text}
-    ctx.check(any(re.match(r'^len\(\w+\) < cap$', t) for t in capatoms), 'C11.4', 'cap:atoms-present', f_get.loc(),
+    ctx.check(any(re.match(r'^(?:len\(\w+\)|\d+) < cap$', t) for t in capatoms), 'C11.4', 'cap:atoms-present', f_get.loc(),
               'the cap is compared with the number collected (>=)', 'cap conditions are %s' % sorted(capatoms))
 
     # ---- show_messages passes things through and prints the three counts in order ----------------------------------
